@@ -2724,12 +2724,15 @@ namespace chaiscript {
           }
         }
 
-        if (Statements(true)) {
-          if (m_position.has_more()) {
-            throw exception::eval_error("Unparsed input", File_Position(m_position.line, m_position.col), *m_filename);
-          } else {
-            build_match<eval::File_AST_Node<Tracer>>(0);
-          }
+        const bool parsed_statements = Statements(true);
+
+        // whatever is left is text the grammar could not parse, also when not a single statement was recognized
+        if (m_position.has_more()) {
+          throw exception::eval_error("Unparsed input", File_Position(m_position.line, m_position.col), *m_filename);
+        }
+
+        if (parsed_statements) {
+          build_match<eval::File_AST_Node<Tracer>>(0);
         } else {
           m_match_stack.push_back(chaiscript::make_unique<eval::AST_Node_Impl<Tracer>, eval::Noop_AST_Node<Tracer>>());
         }
